@@ -48,10 +48,12 @@ def hashseed_runs(prop, acc):
     from mc import core
 
     digests = {}
-    for hs in (0, 1, 2, 3):
+    for hs in (0, 1, 2, 3, "0r"):
         with tempfile.NamedTemporaryFile(suffix=".json", dir=os.path.join(core.VERIF, "evidence"), prefix=".hs_", delete=False) as tf:
             out = tf.name
-        env = dict(os.environ, PYTHONHASHSEED=str(hs), VERIF_EVIDENCE_OUT=out, VERIF_TIER="quick")
+        env = dict(os.environ, PYTHONHASHSEED=str(hs).rstrip("r"), VERIF_EVIDENCE_OUT=out, VERIF_TIER="quick")
+        if str(hs).endswith("r"):
+            env["VERIF_ORDER"] = "reversed"  # same enumeration, every worker runs its cases last-first
         r = subprocess.run([sys.executable, "-m", "mc.run", prop, "--tier", "quick"], cwd=core.VERIF, env=env, capture_output=True, text=True)
         try:
             ev = json.load(open(out))
@@ -66,8 +68,8 @@ def hashseed_runs(prop, acc):
                 pass
     vals = set(digests.values())
     if len(vals) > 1 or any(d[0] != 0 for d in digests.values()):
-        acc.violations.append({"sub": "hashseed/outcome_depends_on_hash_seed", "key": "quick-tier under PYTHONHASHSEED 0..3", "observed": json.dumps(digests), "expected": "identical outcome digests, exit 0",
-                               "case": {"hashseeds": [0, 1, 2, 3]}, "subcheck": "hashseed"})
+        acc.violations.append({"sub": "hashseed/outcome_depends_on_hash_seed", "key": "quick-tier under PYTHONHASHSEED 0..3 and reversed case order", "observed": json.dumps(digests), "expected": "identical outcome digests, exit 0",
+                               "case": {"hashseeds": [0, 1, 2, 3, "0 reversed"]}, "subcheck": "hashseed"})
     return {"hashseed_runs": {str(k): list(map(str, v)) for k, v in digests.items()}}
 
 
